@@ -69,8 +69,9 @@ def _always_removes(w, fi, table):
   self.doBulkRemoveRecord(<literal table>, ...)."""
   fn = w.fn_of(fi)
   du = DefUse(fn)
-  nodes = {n.id for (n, c, nm) in fn.calls() if nm == "self.doBulkRemoveRecord" and c.args and
-           H.table_arg_value(fn, du, n.id, c.args[0]) == table}
+  nodes = {n.id for (n, c, nm) in fn.calls() if nm == "self.doBulkRemoveRecord" and
+           H.funnel_args(w, c)[0] is not None and
+           H.table_arg_value(fn, du, n.id, H.funnel_args(w, c)[0]) == table}
   return bool(nodes) and fn.cfg.dominated_by(fn.cfg.exit.id, nodes)
 
 
@@ -120,8 +121,8 @@ def r1_removal_funnel(run, w, rid):
     cfg = fn.cfg
     nodes = set()
     for (n, c, nm) in fn.calls():
-      if nm == "self.doBulkRemoveRecord" and c.args and \
-          H.table_arg_value(fn, du, n.id, c.args[0], t) == t:
+      if nm == "self.doBulkRemoveRecord" and H.funnel_args(w, c)[0] is not None and \
+          H.table_arg_value(fn, du, n.id, H.funnel_args(w, c)[0], t) == t:
         nodes.add(n.id)
     for (n, c, hfi) in _helper_calls(w, fn):
       if _always_removes(w, hfi, t):
@@ -171,17 +172,23 @@ def _removal_calls(w, fn, du, child, handles, own_table):
   """[(node, records argument)] for calls in fn that remove records of table `child`."""
   out = []
   for (n, c, nm) in fn.calls():
-    if nm == "self.doBulkRemoveRecord" and len(c.args) == 2:
-      if H.table_arg_value(fn, du, n.id, c.args[0], own_table) == child:
-        out.append((n, c.args[1]))
+    if nm == "self.doBulkRemoveRecord":
+      ta, ra = H.funnel_args(w, c)
+      if ta is not None and ra is not None and \
+          H.table_arg_value(fn, du, n.id, ta, own_table) == child:
+        out.append((n, ra))
     elif isinstance(c.func, ast.Attribute) and c.func.attr == "remove" and \
-        fn.type_of(c.func.value) == T.DOCMODEL and len(c.args) == 1:
-      t = H.record_table_of(fn, c.args[0], w, handles, own_table=own_table)
-      if t == child:
-        out.append((n, c.args[0]))
+        fn.type_of(c.func.value) == T.DOCMODEL:
+      a = H.bound_args(w, c, "docmodel.DocModel.remove", 1)
+      if a and a[0] is not None:
+        t = H.record_table_of(fn, a[0], w, handles, own_table=own_table)
+        if t == child:
+          out.append((n, a[0]))
   for (n, c, hfi) in _helper_calls(w, fn):
-    if len(c.args) == 1 and _always_removes(w, hfi, child) and _removes_its_param(w, hfi, child):
-      out.append((n, c.args[0]))
+    a = H.bound_args(w, c, hfi.qualname, 1)
+    if a and a[0] is not None and len(hfi.params()) == 2 and \
+        _always_removes(w, hfi, child) and _removes_its_param(w, hfi, child):
+      out.append((n, a[0]))
   return out
 
 
@@ -192,9 +199,10 @@ def _removes_its_param(w, hfi, table):
     return False
   du = DefUse(fn)
   for (n, c, nm) in fn.calls():
-    if nm == "self.doBulkRemoveRecord" and len(c.args) == 2 and \
-        H.table_arg_value(fn, du, n.id, c.args[0]) == table and \
-        du.flows_from(lambda x: isinstance(x, ast.Name) and x.id == ps[1], c.args[1]):
+    ta, ra = H.funnel_args(w, c) if nm == "self.doBulkRemoveRecord" else (None, None)
+    if ta is not None and ra is not None and \
+        H.table_arg_value(fn, du, n.id, ta) == table and \
+        du.flows_from(lambda x: isinstance(x, ast.Name) and x.id == ps[1], ra):
       return True
   return False
 
@@ -254,9 +262,10 @@ def r2_cascade(run, w):
     readers = {x for x in feed if any(isinstance(y, ast.Attribute) and y.attr == accessor
                                       for e in cfg.nodes[x].exprs if e is not None
                                       for y in ast.walk(e))}
-    parent_rm = {m.id for (m, c, nm) in fn.calls() if nm == "self.doBulkRemoveRecord" and c.args
-                 and H.table_arg_value(fn, du, m.id, c.args[0], parent if fn is top else None)
-                 == parent}
+    parent_rm = {m.id for (m, c, nm) in fn.calls() if nm == "self.doBulkRemoveRecord" and
+                 H.funnel_args(w, c)[0] is not None
+                 and H.table_arg_value(fn, du, m.id, H.funnel_args(w, c)[0],
+                                       parent if fn is top else None) == parent}
     late = readers & cfg.reach_after(parent_rm) if parent_rm else set()
     run.ob(R2, fn.qualname, "%s read before %s rows are removed" % (site, parent),
            "the accessor is a lookup by the parent's id; once the parent row is gone (and "
@@ -317,15 +326,19 @@ def r3_auto_remove(run, w):
   cfg = ar.cfg
   du = DefUse(ar)
   is_set = lambda x: isinstance(x, ast.Attribute) and x.attr == "_auto_remove_set"
-  rm = [(n, c) for (n, c, nm) in ar.calls() if nm in ("self.remove",) and len(c.args) == 1]
+  rm = [(n, c) for (n, c, nm) in ar.calls() if nm in ("self.remove",) and
+        len(c.args) + len(c.keywords) == 1]
   clears = {n.id for (n, c, nm) in ar.calls() if endswith(nm, "_auto_remove_set.clear")}
   if len(rm) != 1:
     raise AnalysisError("apply_auto_removes: expected one self.remove(<records>) call")
   rn, rc = rm[0]
-  ok = du.flows_from(is_set, rc.args[0])
+  rc_arg = H.arg_of(rc, w.repo.func("docmodel.DocModel.remove"), "records")
+  if rc_arg is None:
+    raise AnalysisError("apply_auto_removes: cannot bind the argument of %s" % short(rc))
+  ok = du.flows_from(is_set, rc_arg)
   run.ob(R3, ar.qualname, short(rc), "the records removed are those marked in _auto_remove_set",
          ok, fi=ar.fi, node=rc)
-  readers = {x for x in du.backward_slice([rc.args[0]]) | {rn.id}
+  readers = {x for x in du.backward_slice([rc_arg]) | {rn.id}
              if any(is_set(y) for e in cfg.nodes[x].exprs if e is not None for y in ast.walk(e))}
   ok = bool(clears) and bool(readers) and not (readers & cfg.reach_after(clears)) and \
       all(cfg.dominated_by(c_, readers) for c_ in clears) and \
@@ -341,7 +354,7 @@ def r3_auto_remove(run, w):
          cfg.dominated_by(cfg.exit.id, {rn.id}), fi=ar.fi)
   rd = H.ReachDefs(ar, du)
   rets = [n for n in cfg.nodes if n.kind == "return"]
-  rec_arg = rc.args[0]
+  rec_arg = rc_arg
   rec_defs = rd.reaching(rec_arg.id, rn.id) if isinstance(rec_arg, ast.Name) else None
   def truth_of_records(e, at):
     """True: the truth of the removed-records list; False: something else; None: unknown."""
